@@ -1,6 +1,6 @@
-CONSTANTS MaxConn = 6  Reqs = {1, 2, 3, 4, 5, 6}  Fix = TRUE  RedialFirst = @REDIAL_FIRST@
+CONSTANTS MaxConn = 6  Reqs = {1, 2, 3, 4, 5, 6, 7, 8}  Fix = TRUE  RedialFirst = @REDIAL_FIRST@  MaxRestart = 4  MaxInFlight = 8  Mut = "none"
 SPECIFICATION TraceSpec
-INVARIANTS TypeOK NoWriteOnKnownDead HealthyNotMarkedClosed
+INVARIANTS TypeOK NoWriteOnKnownDead HealthyNotMarkedClosed NoFailAfterDead
 CONSTRAINT HighWater
 POSTCONDITION TraceAccepted
 CHECK_DEADLOCK FALSE
